@@ -323,6 +323,7 @@ class ModelTie:
         self.stats = {}
         self.dead = False          # after a disagreement / an unmodelled situation this history is no longer compared
         self.inv_checked = 0
+        self.last_inv = None
         self.mdk = None
         self.mnames = {'node': set(), 'column': set()}
         self.unstable = 0
@@ -385,6 +386,7 @@ class ModelTie:
         return False
 
     def sync(self, g, cur, what, case):
+        self.last_inv = cur
         md = parse_dump(self.drv.ask('dump')[3:])
         rd = real_dump(g)
         if self.surface_ties(rd['cols'], rd['layers']) or self.surface_ties(md['cols'], md['layers']) \
@@ -404,6 +406,7 @@ class ModelTie:
             self.disagreements.append(dict(facet='geo_ops', case=case, model='; '.join(diffs), impl='(see model field) after %s' % what))
             self.dead = True
             return False
+        self.resync(md, rd, nmap, cmap)
         # the Lean statement of the invariant (Model/GeoInv.lean) against the Python oracle, clause by clause
         mi = dict(x.split('=') for x in self.drv.ask('inv')[3:].split())
         oi = {c: '0' if cur[c] else '1' for c in G.CLAUSES if c != 'namelists'}
@@ -424,6 +427,35 @@ class ModelTie:
             self.dead = True
             return False
         return True
+
+    def resync(self, md, rd, nmap, cmap):
+        """the states agree (within rounding): overwrite the model's numbers with the real doubles, exactly, so that
+        rounding differences cannot accumulate from one operation to the next.  Nothing combinatorial is touched."""
+        q = lambda f: '%d/%d' % (f.numerator, f.denominator)
+        rnode = {n['name']: n for n in rd['nodes']}
+        n_upd = 0
+        for n in md['nodes']:
+            r = rnode.get(nmap.get(n['name']))
+            if r is not None and n['pos'] != r['pos']:
+                self.drv.ask('npos %s %s %s' % (hexname(n['name']), q(r['pos'][0]), q(r['pos'][1])))
+                n_upd += 1
+        rcol = {c['name']: c for c in rd['cols']}
+        for c in md['cols']:
+            r = rcol.get(cmap.get(c['name']))
+            if r is not None and (c['centre'] != r['centre'] or c['area'] != r['area'] or c['surface'] != r['surface']):
+                self.drv.ask('cnum %s %s %s %s %s' % (hexname(c['name']), q(r['centre'][0]), q(r['centre'][1]), q(r['area']),
+                                                      '-' if r['surface'] is None else q(r['surface'])))
+                n_upd += 1
+        for a, b in zip(md['layers'], rd['layers']):
+            if (a['bottom'], a['centre'], a['top']) != (b['bottom'], b['centre'], b['top']):
+                self.drv.ask('lnum %s %s %s %s' % (hexname(a['name']), q(b['bottom']), q(b['centre']), q(b['top'])))
+                n_upd += 1
+        for a, b in zip(md['wells'], rd['wells']):
+            if a['pos'] != b['pos']:
+                self.drv.ask('wpos %s %s' % (hexname(a['name']), ' '.join(q(v) for p in b['pos'] for v in p)))
+                n_upd += 1
+        if n_upd:
+            self.stats['resynced-numbers'] = self.stats.get('resynced-numbers', 0) + n_upd
 
     def start(self, g, inv, case):
         """call once with the start geometry"""
@@ -447,6 +479,12 @@ class ModelTie:
         if self.dead or self.drv is None:
             return None
         name, a = op[0], (op[1] if len(op) > 1 else {})
+        if name in G.NEEDS_VALID_MESH and self.last_inv is not None and \
+                (not G.mesh_valid(self.last_inv) or not G.consistent(self.last_inv)):
+            # on an invalid mesh the boundary walk of refine (and what follows) depends on set iteration order
+            self.dead = True
+            self.stats['skipped:invalid-mesh'] = self.stats.get('skipped:invalid-mesh', 0) + 1
+            return None
         if name not in MODELLED:
             self.dead = True
             self.stats['unmodelled:' + name] = self.stats.get('unmodelled:' + name, 0) + 1
